@@ -162,7 +162,7 @@ def run(facts, rep, ctx):
     # ---- R01.4 -------------------------------------------------------------------------------
     if w["label_push_order"] == ["address", "offset"] and r["label_read_order"] == ["address", "offset"]:
         rep.ok(R4, {"label_record": "address, name offset"})
-    elif len(w["label_push_order"]) != 2 or len(r["label_read_order"]) != 2 or "?" in r["label_read_order"] and False:
+    elif len(w["label_push_order"]) != 2 or len(r["label_read_order"]) != 2 or "?" in r["label_read_order"]:
         rep.inconc(R4, "label record: writer pushes %s, reader interprets %s (two words expected on each side)" % (w["label_push_order"], r["label_read_order"]))
     else:
         rep.violation(R4, rd.name, "label-record", "writer pushes %s, reader interprets %s" % (w["label_push_order"], r["label_read_order"]), "%s:%s" % (rd.file, rd.line))
@@ -507,6 +507,16 @@ def reader_model(facts, rep, R2, rd):
                                         if nm2.endswith("::write_label") or nm2.endswith("::write_labels"):
                                             if any(x == ("local", l, nv.local_name(l)) for x in walk(nv.term_of_operand(t2["args"][1]))):
                                                 role = "address"
+                                # ... or directly in the position the name is read at
+                                for bb2 in lp["blocks"]:
+                                    t2 = nv.blocks[bb2]["term"]
+                                    if t2["k"] == "call" and ((callee_names(t2)[1] or "").endswith("Seek>::seek") or (callee_names(t2)[1] or "").endswith("Cursor::<T>::set_position")):
+                                        tg = nv.term_of_operand(t2["args"][1])
+                                        if tg[0] == "agg" and tg[4]:
+                                            tg = tg[4][0]
+                                        a3 = affine(tg, nv)
+                                        if a3 and ("local", l, nv.local_name(l)) in a3[0] and set(hdr_fields) <= set(a3[0].keys()):
+                                            role = "offset"
                                 for l2 in range(len(nv.locals)):
                                     if nv.is_atom(l2) and l2 != l:
                                         ds2 = nv.defs().get(l2, [])
